@@ -53,6 +53,8 @@ def run(ctx):
     common.proof_side(ctx, THEOREMS, modules=["QProps.C18", "QProps.C18b"])
     drv = common.Driver()
     rng = ctx.rng
+    import harness.pipeline as pl_
+    interp = pl_.Interp()
     n = 120 if ctx.tier == "quick" else 900
 
     def per_case(case, res):
@@ -64,6 +66,14 @@ def run(ctx):
             return per_case_(case, res)
         finally:
             fv.REF_KERNEL[0] = False
+
+    def survives(mb_out, data):
+        for j in range(max((len(v) for v in data.values()), default=0)):
+            r0 = interp.run(mb_out, {k: v[j:j + 1] for k, v in data.items() if len(v) > j})
+            if r0[0] in ("abort", "timeout"):
+                ctx.tag("skipped_runtime_aborts")
+                return False
+        return True
 
     def per_case_(case, res):
         if "const_is_output" in case.info["tags"]:
@@ -90,6 +100,8 @@ def run(ctx):
             return
         metric = "mse" if rng.random() < 0.5 else "median_diff_ratio"
         data = gm.random_inputs(case.mb, rng, n=rng.randint(1, 3))
+        if not survives(res["out"], data):
+            return
         if rng.random() < 0.25:
             # test samples with non-finite values: the float side then holds NaN / Inf in tensors where the integer side (saturating kernels,
             # quantized inputs) is finite, and vice versa; the documented metric replaces them (1e-9 / +-1e9) on BOTH sides
@@ -112,6 +124,10 @@ def run(ctx):
             except RuntimeError:
                 ctx.tag("nonfinite_sample_refused_by_a_kernel")
                 return
+        # validate() and the harness's own captures run the QUANTIZED model inside this process; a model on which the runtime abort()s
+        # (cf. finding D29) would take the whole check with it: it is tried in the interpreter server (a child process) first
+        if not survives(res["out"], data):
+            return
         fail = fp.failer(ctx, case, prefix=f"[{metric}] ")
         r = fv.cmp_validate(ctx, drv, case.mb, res["out"], data, metric)
         if r[0] == "ok":
@@ -153,7 +169,10 @@ def run(ctx):
             name, rec = rng_.choice(pl.shipped_recipes())
             return fp.Case(mb, info, recipe=rec, data=data, desc=name)
         return fp.gen_case(rng_, i)
-    fp.explore(ctx, drv, n, per_case, gen=gen, graph_corr=False)
+    try:
+        fp.explore(ctx, drv, n, per_case, gen=gen, graph_corr=False)
+    finally:
+        interp.close()
     drv.close()
     return common.finish(ctx)
 
